@@ -125,14 +125,14 @@ func zzH_c18_sm2_decrypt_boundary() {
 //verif:property C18
 //verif:expect-reach end
 //verif:bound buffer length every value 0..8 and 33, content symbolic
-//verif:outside sm2P256 field arithmetic (FromBig/Square/Mul/Add/ToBig) and big.Int.ModSqrt are stubs; whether a given x really is a non-residue is not decided (about half of all x are); not replayable natively (uses //verif:stub)
-//verif:stub github.com/tjfoc/gmsm/sm2.sm2P256FromBig zzStubFromBig
-//verif:stub github.com/tjfoc/gmsm/sm2.sm2P256Square zzStubFE2
-//verif:stub github.com/tjfoc/gmsm/sm2.sm2P256Mul zzStubFE3
-//verif:stub github.com/tjfoc/gmsm/sm2.sm2P256Add zzStubFE3
-//verif:stub github.com/tjfoc/gmsm/sm2.sm2P256ToBig zzStubToBig
-//verif:stub (*math/big.Int).ModSqrt zzStubModSqrt
-//verif:stub github.com/tjfoc/gmsm/sm2.P256Sm2 zzStubP256
+//verif:outside sm2P256 field arithmetic (FromBig/Square/Mul/Add/ToBig) and big.Int.ModSqrt are stubs; whether a given x really is a non-residue is not decided (about half of all x are); natively the real field arithmetic and ModSqrt run
+//verif:stub-symbolic github.com/tjfoc/gmsm/sm2.sm2P256FromBig zzStubFromBig
+//verif:stub-symbolic github.com/tjfoc/gmsm/sm2.sm2P256Square zzStubFE2
+//verif:stub-symbolic github.com/tjfoc/gmsm/sm2.sm2P256Mul zzStubFE3
+//verif:stub-symbolic github.com/tjfoc/gmsm/sm2.sm2P256Add zzStubFE3
+//verif:stub-symbolic github.com/tjfoc/gmsm/sm2.sm2P256ToBig zzStubToBig
+//verif:stub-symbolic (*math/big.Int).ModSqrt zzStubModSqrt
+//verif:stub-symbolic github.com/tjfoc/gmsm/sm2.P256Sm2 zzStubP256
 //verif:unwind 140
 func zzH_c18_sm2_decompress() {
 	lens := []int{0, 1, 2, 3, 4, 5, 6, 7, 8, 33}
@@ -152,13 +152,13 @@ func zzH_c18_sm2_decompress() {
 //verif:expect-reach end
 //verif:bound the inputs 02 00..00 02 (33 bytes, x=2 is not on the curve) and the 2-byte input 02 02
 //verif:outside as zzH_c18_sm2_decompress; under the engine ModSqrt's result is nondeterministic, natively the real field arithmetic runs
-//verif:stub github.com/tjfoc/gmsm/sm2.sm2P256FromBig zzStubFromBig
-//verif:stub github.com/tjfoc/gmsm/sm2.sm2P256Square zzStubFE2
-//verif:stub github.com/tjfoc/gmsm/sm2.sm2P256Mul zzStubFE3
-//verif:stub github.com/tjfoc/gmsm/sm2.sm2P256Add zzStubFE3
-//verif:stub github.com/tjfoc/gmsm/sm2.sm2P256ToBig zzStubToBig
-//verif:stub (*math/big.Int).ModSqrt zzStubModSqrt
-//verif:stub github.com/tjfoc/gmsm/sm2.P256Sm2 zzStubP256
+//verif:stub-symbolic github.com/tjfoc/gmsm/sm2.sm2P256FromBig zzStubFromBig
+//verif:stub-symbolic github.com/tjfoc/gmsm/sm2.sm2P256Square zzStubFE2
+//verif:stub-symbolic github.com/tjfoc/gmsm/sm2.sm2P256Mul zzStubFE3
+//verif:stub-symbolic github.com/tjfoc/gmsm/sm2.sm2P256Add zzStubFE3
+//verif:stub-symbolic github.com/tjfoc/gmsm/sm2.sm2P256ToBig zzStubToBig
+//verif:stub-symbolic (*math/big.Int).ModSqrt zzStubModSqrt
+//verif:stub-symbolic github.com/tjfoc/gmsm/sm2.P256Sm2 zzStubP256
 //verif:unwind 140
 func zzH_c18_sm2_decompress_nonresidue() {
 	// under the engine P256Sm2 is stubbed, so the modulus must be provided; natively the
